@@ -286,6 +286,57 @@ def merge_existing_output(exists_flag: bool) -> bool:
     return fs.mutating_ops() == []
 
 
+SPELLINGS = ["out.yaml", "~/out.yaml", "$HOME/out.yaml", "${HOME}/out.yaml", "./out.yaml"]
+
+
+def merge_output_spelling(k: int) -> bool:
+    """yaml-merge --output never replaces an existing file, however the name is spelled: every file that existed before
+    the run (under the literal spelling or under what ~ / $VAR expansion makes of it) keeps its bytes."""
+    import os
+    k = realize(k)
+    sp, k = k % len(SPELLINGS), k // len(SPELLINGS)
+    lit_exists, k = k % 2, k // 2
+    exp_exists = k % 2
+    name = SPELLINGS[sp]
+    expanded = os.path.expandvars(os.path.expanduser(name))
+    files = {"l.yaml": b"L", "r.yaml": b"R"}
+    if lit_exists:
+        files[name] = ORIG
+    if exp_exists:
+        files[expanded] = ORIG
+    lit_exists = name in files
+    before = dict(files)
+    fs = FakeFS(files)
+    args = SimpleNamespace(quiet=True, verbose=False, debug=False, output=name, overwrite=None, backup=False,
+                           yaml_files=["l.yaml", "r.yaml"], config=None, mergeat="/", nostdin=True, json_indent=2,
+                           document_format="auto", hashes=None, arrays=None, aoh=None, sets=None, anchors="stop",
+                           multi_doc_mode="condense_all", preserve_lhs_comments=False)
+    with NoTracing():
+        yaml = Parsers.get_yaml_editor()
+        docs = {"l.yaml": yaml.load("a: 1\n"), "r.yaml": yaml.load("b: 2\n")}
+    saved = (ym.processcli, Parsers.get_yaml_multidoc_data)
+    ym.processcli = lambda: args
+    Parsers.get_yaml_multidoc_data = staticmethod(lambda parser, logger, source, **kw: iter([(docs[source], True)]))
+    code = 0
+    try:
+        with _patched(ym, fs, {"access": lambda p_, m_: True}), \
+                contextlib.redirect_stdout(io.StringIO()), contextlib.redirect_stderr(io.StringIO()):
+            try:
+                ym.main()
+            except SystemExit as ex:
+                code = ex.code if ex.code is not None else 0
+    finally:
+        (ym.processcli, Parsers.get_yaml_multidoc_data) = saved
+    note(output=name, expands_to=expanded, existed_before=sorted(before), exit_status=code, ops=fs.log,
+         files_after={k2: v.decode(errors="replace") for k2, v in fs.files.items()})
+    for path, content in before.items():
+        if fs.files.get(path) != content:
+            return False
+    if lit_exists:
+        return code != 0 and fs.mutating_ops() == []
+    return code == 0
+
+
 def shards(tier, seed):
     out = []
     for name, fn, kmax in (("set", "set_save_fault", 12), ("merge", "merge_save_fault", 7)):
@@ -310,4 +361,8 @@ def shards(tier, seed):
                      desc="yaml-merge main(): %d merge/anchor conflicts, --output or --overwrite --backup" % len(MERGE_FAILS)))
     out.append(shard(PID, "early/merge_output", "harness.c17", "merge_existing_output(exists_flag)", [("exists_flag", "bool")],
                      [], family="early/merge", budget=300, desc="yaml-merge --output refuses an existing file"))
+    out.append(shard(PID, "early/merge_output_spelling", "harness.c17", "merge_output_spelling(k)", [("k", "int")],
+                     ["0 <= k < %d" % (len(SPELLINGS) * 4)], family="early/merge", budget=900, kind="S",
+                     desc="yaml-merge main() with --output spelled plainly / with ~ / with $HOME, a file existing under the literal "
+                          "and/or the expanded name: no pre-existing file is ever replaced"))
     return out
